@@ -958,6 +958,75 @@ def rule_r9(prog, res) -> None:
         raise AnalysisError(f"C17.R9: only {n} self-iterators found, minimum 2")
 
 
+def rule_r10(prog, res) -> None:
+    """a selection of bins keeps each selected bin's own left edge: the edges handed to the new binning by
+    `Binning.__getitem__` are (the left edges of the selection, then the last right edge) — so that
+    `binning[sel].left == binning.left[sel]` for every selection, contiguous or not (the data arrays are selected by the
+    same index; any other splice attaches the values to other redshift intervals without changing any shape).
+    Decided on the symbolic return value."""
+    from .. import symx
+
+    b = prog.find_class("Binning")
+    gi = b.methods.get("__getitem__")
+    if gi is None:
+        raise AnalysisError("C17.R10: Binning.__getitem__ vanished")
+    res.touch(gi)
+    item = gi.param_names()[1]
+
+    def part(e):
+        """-> (side, 'whole' | ('elem', k) | ('slice', text)) for an expression derived from self.left[item] / self.right[item]"""
+        e = symx.strip_wrappers(e)
+        while isinstance(e, ast.Call) and (dotted(e.func) or "").split(".")[-1] in ("atleast_1d", "asarray", "array", "ravel") and e.args:
+            e = e.args[0]
+        how = "whole"
+        if isinstance(e, ast.Subscript) and not (isinstance(e.value, ast.Attribute) and isinstance(e.value.value, ast.Name) and e.value.value.id == "self"):
+            sl = e.slice
+            if isinstance(sl, ast.Constant) and isinstance(sl.value, int):
+                how = ("elem", sl.value)
+            elif isinstance(sl, ast.UnaryOp) and isinstance(sl.op, ast.USub) and isinstance(sl.operand, ast.Constant):
+                how = ("elem", -sl.operand.value)
+            else:
+                how = ("slice", unparse(sl))
+            e = e.value
+            while isinstance(e, ast.Call) and (dotted(e.func) or "").split(".")[-1] in ("atleast_1d", "asarray", "array", "ravel") and e.args:
+                e = e.args[0]
+        if isinstance(e, ast.Subscript) and isinstance(e.value, ast.Attribute) and isinstance(e.value.value, ast.Name) and e.value.value.id == "self" and unparse(e.slice) == item:
+            if e.value.attr in ("left", "right"):
+                return e.value.attr, how
+        return None
+
+    n = 0
+    for p in symx.explore(prog, gi, inline=symx.inline_private_helpers(prog)):
+        if p.outcome != "return" or p.value is None:
+            continue
+        v = symx.strip_wrappers(p.value)
+        if not (isinstance(v, ast.Call) and v.args):
+            raise AnalysisError(f"C17.R10: value returned by Binning.__getitem__ not recognised ({unparse(v)[:60]})")
+        E = symx.strip_wrappers(v.args[0])
+        parts = None
+        if isinstance(E, ast.Call) and (dotted(E.func) or "").split(".")[-1] in ("append", "concatenate", "hstack", "r_"):
+            parts = list(E.args[0].elts) if len(E.args) == 1 and isinstance(E.args[0], (ast.Tuple, ast.List)) else list(E.args[:2])
+        if parts is None or len(parts) != 2:
+            raise AnalysisError(f"C17.R10: the edges of a bin selection are not spliced from left / right edges in a recognised way ({unparse(E)[:80]})")
+        got = [part(x) for x in parts]
+        if any(g is None for g in got):
+            raise AnalysisError(f"C17.R10: parts of the spliced edges not recognised ({[unparse(x)[:40] for x in parts]})")
+        n += 1
+        ok = got[0] == ("left", "whole") and got[1][0] == "right" and (got[1][1] == ("elem", -1) or (isinstance(got[1][1], tuple) and got[1][1][0] == "slice" and got[1][1][1].replace(" ", "") in ("-1:",)))
+        if ok:
+            res.ok("C17.R10", res.site(gi), "edges of a selection = left edges of the selected bins + the last right edge")
+        else:
+            res.violation(
+                "C17.R10",
+                gi,
+                p.node or gi.node,
+                f"the edges of a bin selection are spliced as {got}: for a selection that skips bins (a step, an index list) the selected bins no longer keep their own left edges — values are attached to other redshift intervals, no shape changes",
+                key_extra="binning-getitem-splice",
+            )
+    if n == 0:
+        raise AnalysisError("C17.R10: Binning.__getitem__ has no returning path")
+
+
 RULES = [
     ("C17.R1", rule_r1, QUICK),
     ("C17.R2", rule_r2, QUICK),
@@ -968,4 +1037,5 @@ RULES = [
     ("C17.R7", rule_r7, QUICK),
     ("C17.R8", rule_r8, QUICK),
     ("C17.R9", rule_r9, QUICK),
+    ("C17.R10", rule_r10, QUICK),
 ]
